@@ -111,6 +111,20 @@ def main(argv=None):
         with ThreadPoolExecutor(max_workers=NPROC) as ex:
             results = list(ex.map(job, list(enumerate(specs))))
 
+    # A worker killed by a signal of its own (a crash inside native code): run that shard once more.  A death that does
+    # not repeat is recorded and makes the run inconclusive for that shard's share only if the second run fails too; a
+    # property module for which a crash is itself the observation (C04, C19, C20) sets STRICT_WORKER_DEATH.
+    died_once = []
+    if not getattr(mod, "STRICT_WORKER_DEATH", False):
+        retried = []
+        for idx, spec, rc, err, j, dt in results:
+            if isinstance(rc, int) and rc < 0 and rc not in (-15, -9):
+                died_once.append({"shard": idx, "kind": spec.get("kind"), "rc": rc, "stderr_tail": err[-600:]})
+                retried.append(run_one_shard(pid, idx, spec, workdir, spec.get("timeout", default_to)))
+            else:
+                retried.append((idx, spec, rc, err, j, dt))
+        results = retried
+
     shard_times = {}
     for idx, spec, rc, err, j, dt in results:
         shard_times[f"{idx}:{spec.get('kind')}"] = round(dt, 1)
@@ -143,6 +157,10 @@ def main(argv=None):
             extra = mod.finalize(total, a.tier) or {}
         except Exception as e:  # noqa: BLE001
             total.inconc(f"finalize failed: {e!r}")
+
+    if died_once:
+        extra["worker_died_once_and_was_rerun"] = died_once
+        print(f"NOTE property={pid} {len(died_once)} shard(s) died by a signal and were run again: " + ", ".join(f"{d['kind']}(rc={d['rc']})" for d in died_once))
 
     wall = time.time() - t0
     # ---- verdict lines
